@@ -14,7 +14,7 @@ def plan(tier):
                 "multi-sentinel, sentinels 0/'#'/'$', symbols up to 255) with k in {1,2,3,7,8,63,64,65,66,100,128,129,"
                 "(n-1)/2,n-2,n-1,n,2n} and alphabets equal to / larger than the text's (absent symbols, implicit '$')",
         "bounds": {"mc": "Sym={$,a,b}, n<=6 (quick) / 8 (thorough), all k in 1..2n, T=2: build steps + every (r,c) "
-                         "query split by branch",
+                         "query split by branch; bwtfind + invert_bwt walk on the BWT of every single-sentinel text over {a,b}",
                    "impl": "n<=400, k<=2n, T=64 (the code's constant), alphabets up to symbol 255"},
         "assumptions": ["ndJsonDeserialize/TLC evaluate the TLA+ definitions faithfully",
                         "Occ::get is only asked for symbols of the alphabet handed to Occ::new and the sentinel "
@@ -25,8 +25,8 @@ def plan(tier):
 
 
 MANIFEST = {
-    "technique": "TLA+ machine of Occ::new / Occ::get (checkpoints, early exit, backward and forward counting, scaled "
-                 "look-ahead threshold) model-checked by TLC against counting definitions; traces of the real "
+    "technique": "TLA+ machines of Occ::new / Occ::get (checkpoints, early exit, backward and forward counting, scaled "
+                 "look-ahead threshold) and of bwtfind / invert_bwt (stable counting sort, inverse-LF walk) model-checked by TLC against counting definitions; traces of the real "
                  "suffix_array/bwt/less/Occ/invert_bwt validated by TLC against the same definitions",
     "text": "TLC exhausts every string over 3 symbols up to length 6/8 with every sampling rate 1..2n for the Occ "
             "machine (each (row,symbol) query, split by code branch) against OccDef, and every recorded bwt, less, "
